@@ -1,5 +1,5 @@
 #!/bin/bash
-for p in C17 C08 C12 C13 C19 C16 C03 C11; do
+for p in ${THOROUGH_PROPS:-C17 C08 C12 C13 C19 C16 C03 C10 C11}; do
   echo "=== $p thorough start $(date +%H:%M)"
   ./check $p --tier thorough > /tmp/thorough_$p.out 2>/tmp/thorough_$p.err; rc=$?
   echo "=== $p thorough exit=$rc $(tail -1 /tmp/thorough_$p.out)"
